@@ -9,6 +9,8 @@
 (* names the smallest part that differs.                                   *)
 (*                                                                         *)
 (*   ConvUnit, ConvEntry, ConvLineHeader, ConvLineSeq, ConvFde             *)
+(*   ConvRetargetUnit / Entry / Seq  stepwise conversion that re-encodes   *)
+(*                  for another DWARF version (Convert.tla section 1)      *)
 (*   ConvDone       counts of parts on the three sides must agree          *)
 (*   ConvertFailed  conversion or writing returned an error: allowed       *)
 (*   InputRejected  gimli's reader does not accept the input: not covered  *)
@@ -41,6 +43,12 @@ ConvFde(r) == LET a == FdeMeaning(r.min)
     /\ Again(r)
     /\ b = a /\ c = b
     /\ ("exp" \in DOMAIN r) => (b.unwind = r.exp.unwind /\ b.fin = "end")
+(* re-targeted conversion (r.tv = target version); the second conversion of  *)
+(* the output is an ordinary one                                             *)
+ConvRetargetUnit(r)  == Again(r) /\ Ok3(RetargetUnitMeaning, r)
+                        /\ (r.mout.present => r.mout.ver = r.tv) /\ r.mout2.ver = r.mout.ver
+ConvRetargetEntry(r) == Again(r) /\ Ok3(RetargetEntryMeaning, r) /\ EntryMeaning(r.mout2) = EntryMeaning(r.mout)
+ConvRetargetSeq(r)   == Again(r) /\ Ok3(SeqMeaning, r)
 ConvDone(r) == Again(r) /\ r.nout = r.nin /\ r.nout2 = r.nout
 
 (* An event is explained iff the relation of Convert.tla holds for it.  Failing *)
@@ -52,6 +60,9 @@ Explained(r) ==
       [] r.ev = "ConvLineHeader" -> ConvLineHeader(r)
       [] r.ev = "ConvLineSeq"    -> ConvLineSeq(r)
       [] r.ev = "ConvFde"        -> ConvFde(r)
+      [] r.ev = "ConvRetargetUnit"  -> ConvRetargetUnit(r)
+      [] r.ev = "ConvRetargetEntry" -> ConvRetargetEntry(r)
+      [] r.ev = "ConvRetargetSeq"   -> ConvRetargetSeq(r)
       [] r.ev = "ConvDone"       -> ConvDone(r)
       [] r.ev = "ConvertFailed"  -> TRUE
       [] r.ev = "InputRejected"  -> TRUE
